@@ -6,6 +6,11 @@ UNITS = [
     {'name': 'bitvec.iter', 'backend': 'verus', 'tier': 'quick'},
     {'name': 'bitvec.hinted', 'backend': 'verus', 'tier': 'quick'},
     {'name': 'rank9', 'backend': 'verus', 'tier': 'quick'},
+    {'name': 'rank_small@2_9', 'backend': 'verus', 'tier': 'quick'},
+    {'name': 'rank_small@1_9', 'backend': 'verus', 'tier': 'quick'},
+    {'name': 'rank_small@1_10', 'backend': 'verus', 'tier': 'quick'},
+    {'name': 'rank_small@1_11', 'backend': 'verus', 'tier': 'quick'},
+    {'name': 'rank_small@3_13', 'backend': 'verus', 'tier': 'quick'},
     {'name': 'shard_edge', 'backend': 'verus', 'tier': 'quick'},
     {'name': 'ef.builder', 'backend': 'verus', 'tier': 'quick'},
     {'name': 'ef.guards', 'backend': 'verus', 'tier': 'quick'},
